@@ -370,6 +370,10 @@ func (p *cparser) expr(minPrec int) cexpr {
 
 var lbParen = map[*cBinary]bool{}
 
+var basicTypeNames = map[string]bool{"int": true, "int8": true, "int16": true, "int32": true, "int64": true, "uint": true, "uint8": true,
+	"uint16": true, "uint32": true, "uint64": true, "uintptr": true, "byte": true, "rune": true, "bool": true, "string": true,
+	"float32": true, "float64": true, "error": true, "any": true, "ref": true, "mathint": true, "real": true}
+
 func (p *cparser) ident() string {
 	t := p.next()
 	if t.kind != tkIdent {
@@ -572,6 +576,14 @@ func (p *cparser) postfix(e cexpr) cexpr {
 						ty := p.parseType()
 						if !(p.isOp(",") || p.isOp(")")) {
 							panic(parseErr("not a type"))
+						}
+						// `*v` with a lower-case, unqualified, non-basic name is a
+						// dereference of a variable, not a pointer type
+						if ty.kind == "ptr" && ty.elem.kind == "name" && !strings.Contains(ty.elem.name, ".") {
+							n := ty.elem.name
+							if n != "" && n[0] >= 'a' && n[0] <= 'z' && !basicTypeNames[n] {
+								panic(parseErr("not a type"))
+							}
 						}
 						args = append(args, &cTypeX{ty})
 					}()
